@@ -97,6 +97,34 @@ func registerNumStubs(e *Engine) {
 		return args[0]
 	})
 
+	// math/bits.Len*: the table-driven implementation would fork 256 ways per
+	// lookup on a symbolic operand; the exact value as an ite chain instead.
+	lenN := func(w int) externalFn {
+		return func(fr *frame, args []value) value {
+			sv, ok := args[0].(sym)
+			if !ok {
+				x := uint64(asInt64c(args[0]))
+				n := 0
+				for ; x != 0; x >>= 1 {
+					n++
+				}
+				return n
+			}
+			t := sv.t
+			res := BV(64, 0)
+			for i := 1; i <= w; i++ {
+				// len >= i  <=>  x >= 2^(i-1)
+				res = Ite(Not(Bin("bvult", t, BV(t.S, uint64(1)<<uint(i-1)))), BV(64, uint64(i)), res)
+			}
+			return mkval(res, types.Int)
+		}
+	}
+	e.reg("math/bits.Len64", lenN(64))
+	e.reg("math/bits.Len32", lenN(32))
+	e.reg("math/bits.Len16", lenN(16))
+	e.reg("math/bits.Len8", lenN(8))
+	e.reg("math/bits.Len", lenN(64))
+
 	// logging.PackageLogger returns (*zap.Logger, Tracer)
 	tracerT := newEngType("engTracer", types.NewPointer(types.Typ[types.Int]), map[string]engMethod{
 		"Enabled": func(fr *frame, recv value, args []value) value { return false },
